@@ -369,6 +369,8 @@ H_Get(st, req, p) ==
     IF p.fmt # "" /\ ~HasFmt(o.type) THEN Fail(st, "KeyFormatTypeNotSupported")
     ELSE IF p.fmt # "" /\ p.fmt # o.fmt THEN Fail(st, "KeyFormatTypeNotSupported")
     ELSE IF ~p.wrap THEN Ok(st, <<l.u>>)
+    \* only objects with a key block can be handed out wrapped
+    ELSE IF o.type \in {"Certificate", "OpaqueData"} THEN Fail(st, "IllegalOperation")
     ELSE IF p.w.method # "ENCRYPT" THEN Fail(st, "OperationNotSupported")
     ELSE IF p.w.haskey
          THEN LET k == LoadDirect(st, Ident(req), p.w.kuid, "Get") IN
@@ -510,7 +512,7 @@ H_SetAttribute(st, req, p) ==
     LET l == Load(st, Ident(req), p.uid, "SetAttribute") IN
     IF ~l.ok THEN NotFound(st, l)
     ELSE LET n == p.new.name  o == st.objs[l.u] IN
-    IF ~HasRule(n) THEN Unmodelled(st)
+    IF ~HasRule(n) THEN Fail(st, "ItemNotFound")      \* a name the server has no rule for (Always Sensitive, Extractable ...)
     ELSE IF AttrMulti(n) THEN Fail(st, "MultiValuedAttribute")
     ELSE IF ~AttrModifiable(n) THEN Fail(st, "ReadOnlyAttribute")
     ELSE LET s == SetEntry(o, n, <<p.new.v>>) IN
@@ -522,7 +524,7 @@ H_Modify20(st, req, p) ==
     LET l == Load(st, Ident(req), p.uid, "ModifyAttribute") IN
     IF ~l.ok THEN NotFound(st, l)
     ELSE LET n == p.new.name  o == st.objs[l.u] IN
-    IF ~HasRule(n) THEN Unmodelled(st)
+    IF ~HasRule(n) THEN Fail(st, "ItemNotFound")
     ELSE IF ~AttrModifiable(n) THEN Fail(st, "PermissionDenied")
     ELSE IF AttrMulti(n)
          THEN IF ~p.hascur THEN Fail(st, "AttributeInstanceNotFound")
